@@ -1,0 +1,9 @@
+//go:build verif
+
+package reconciler
+
+import "context"
+
+// VerifWorkOne processes at most one item of the work queue on the calling goroutine
+// (verification harness in /verif). Returns false when the queue had nothing to hand out.
+func (w *Controller) VerifWorkOne(ctx context.Context) bool { return w.work(ctx) }
